@@ -226,7 +226,13 @@ impl DecompressionReaderBuilder {
         let Some(mut cmd) = self.matcher.command(path) else {
             return DecompressionReader::new_passthru(path);
         };
-        cmd.arg(path);
+        // A relative path that starts with a `-` would be taken for an option
+        // by the command.
+        if path.is_relative() && path.to_string_lossy().starts_with('-') {
+            cmd.arg(Path::new(".").join(path));
+        } else {
+            cmd.arg(path);
+        }
 
         match self.command_builder.build(&mut cmd) {
             Ok(cmd_reader) => Ok(DecompressionReader { rdr: Ok(cmd_reader) }),
